@@ -239,6 +239,58 @@ def trim_case(ctx, rng):
     return True
 
 
+def wide_trim_case(ctx, rng):
+    """a wide register (9-13 qubits) in which only 2-4 qubits at sparse positions - some of them >= 8 - are really used:
+    all others are idle or carry trivial single-qubit gates and are trimmed; the surviving qubits are re-indexed and
+    circuit and operator must be re-indexed alike"""
+    from tangelo.linq import Circuit, Gate
+    from tangelo.toolboxes.operators import QubitOperator, count_qubits
+    from tangelo.toolboxes.operators.trim_trivial_qubits import trim_trivial_qubits
+    n = rng.randint(9, 13)
+    k = rng.randint(2, 4)
+    ent = sorted(rng.sample(range(n), k))
+    if rng.random() < 0.7 and max(ent) < 8:
+        ent[-1] = rng.randint(8, n - 1)
+        ent = sorted(set(ent))
+    gates = []
+    for q in range(n):
+        if q in ent or rng.random() < 0.4:
+            continue
+        for kd in [rng.choice(["X", "Z", "RXpi", "RZ", "RX-pi"]) for _ in range(rng.randint(1, 2))]:
+            gates.append(one_gate(kd, q, rng)[0])
+    rng.shuffle(gates)
+    order = ent[:]
+    rng.shuffle(order)
+    eg = [Gate("RY", q, parameter=round(rng.uniform(0.3, 2.8), 3)) for q in order]
+    eg += [Gate("CNOT", order[i + 1], order[i]) for i in range(len(order) - 1)]
+    eg += [Gate(rng.choice(["RX", "RZ"]), q, parameter=round(rng.uniform(0.3, 2.8), 3)) for q in order]
+    pos = rng.randint(0, len(gates))
+    gates = gates[:pos] + eg + gates[pos:]
+    circ = Circuit(gates, n_qubits=n)
+    op = QubitOperator((), round(rng.uniform(-1, 1), 3))
+    for _ in range(rng.randint(3, 7)):
+        w = [(q, rng.choice("XYZ")) for q in ent if rng.random() < 0.7]
+        w += [(q, "Z") for q in range(n) if q not in ent and rng.random() < 0.15]
+        op += QubitOperator(tuple(sorted(w)), round(rng.uniform(-1, 1), 3))
+    case = {"kind": "wide_trim", "n": n, "active": ent, "gates": [[g.name, list(g.target), list(g.control) if g.control else None, g.parameter] for g in gates],
+            "op": [[list(map(list, w)), c] for w, c in op.terms.items()]}
+    psi, _ = vlib.np_run_state(circ._gates, n)
+    before = float(np.real(fock.pauli_expect(psi, op, n)))
+    top, tcirc = trim_trivial_qubits(op, circ)
+    nt = tcirc.width
+    ctx.case(case, nontrivial=True, sample=False)
+    ctx.count(f"wide_trim:survivors{'>=8' if max(ent) >= 8 else '<8'}")
+    if count_qubits(top) > nt:
+        ctx.violation(f"trimmed operator acts on {count_qubits(top)} qubits, trimmed circuit has {nt}", case)
+        return False
+    phi, _ = vlib.np_run_state(tcirc._gates, nt) if nt > 0 else (np.ones(1, dtype=complex), 1)
+    after = float(np.real(fock.pauli_expect(phi, top, nt)))
+    if abs(before - after) > TOL:
+        ctx.violation(f"expectation value changes from {before!r} to {after!r} when trimming a {n}-qubit register down to the qubits {ent}", case)
+        return False
+    return True
+
+
 # ------------------------------------------------------------------------------------------------ truncation
 def stabiliser_family(rng, n):
     """all 2^n products of n independent commuting Pauli words (a stabiliser group up to signs): sum = 2^n * projector"""
@@ -320,6 +372,8 @@ def run(ctx):
     ok &= synth_taper_cases(ctx, rng, ctx.n(12, 80))
     for _ in range(ctx.n(150, 1500)):
         ok &= trim_case(ctx, rng)
+    for _ in range(ctx.n(30, 300)):
+        ok &= wide_trim_case(ctx, rng)
     for _ in range(ctx.n(60, 500)):
         ok &= trunc_case(ctx, rng, adversarial=False)
     for _ in range(ctx.n(60, 500)):
